@@ -152,6 +152,8 @@ fn digest(a: &AddressSpace, universe: &BTreeSet<i128>) -> Vec<i128> {
             for r in rs { refs.insert((*u, zid(&r.reference_type), zid(&r.target_node))); }
         }
     }
+    // every node of the address space must be one of the ids the case speaks about
+    if a.verif_node_count() != nodes.len() { return vec![-5, a.verif_node_count() as i128]; }
     let mut d = vec![nodes.len() as i128];
     for n in nodes { d.extend([n.0, n.1, n.2, n.3]); }
     d.push(refs.len() as i128);
